@@ -18,6 +18,7 @@ import H3.Drv.C14
 import H3.Drv.C03
 import H3.Drv.C11
 import H3.Drv.C10
+import H3.Drv.C20
 open H3.Drv
 
 def dispatch (ws : List String) : String :=
@@ -42,6 +43,7 @@ def dispatch (ws : List String) : String :=
     else if e == "req" then H3.Drv.C03.handle ws
     else if e == "qpack" then H3.Drv.C11.handle ws
     else if e == "lim" then H3.Drv.C10.handle ws
+    else if e == "dyn" then H3.Drv.C20.handle ws
     else if e == "wbuf" || e == "out" || e == "outlog" then H3.Drv.C14.handle ws
     else "bad-op"
 
